@@ -52,8 +52,11 @@ def limit_cases(rng, tier):
                 lines = []
                 for g in range(v - 3): lines += P(b'V', b'', 'P.set I 0 1 %d' % (g % 100), b'G%03d' % g)
             elif L == 'parameter-blocks':
-                # fill the parameter section up to v blocks with 300-byte records
-                lines = []; size = 4 + 330  # rough size of the default groups
+                # fill the parameter section up to v blocks with 300-byte records; data after it (at 255 blocks they start in block 257,
+                # which no one-byte field of the file can hold)
+                lines = ['point 0 x61', 'P.new %s x' % hx(b'RATE'), 'P.set F 0 1 42c80000', 'param 0 ' + hx(b'POINT'),
+                         'frame 0 - 1 x61 3dcccccd 40000000 40400000 3c23d70a 0', 'frame 0 - 1 x61 3f8ccccd c0000000 40400000 00000000 0']
+                size = 4 + 330  # rough size of the default groups
                 k = 0
                 while True:
                     rec = 2 + 4 + 2 + 1 + 1 + 2 + 1 + 255
